@@ -12,28 +12,10 @@ MCAllKeys == SeqsOf(Alphabet, 1, MaxLen)
 \* <<255>> and <<255,255>> have no prefix upper bound
 MCFewKeys == {<<0>>, <<0, 255>>, <<1>>, <<255>>, <<255, 255>>}
 MCFourKeys == {<<0>>, <<0, 255>>, <<1>>, <<255, 255>>}
+MCThreeKeys == {<<0>>, <<0, 255>>, <<1>>}
 
 \* facts about byte order the backends' range arithmetic relies on (checked once by TLC)
 ASSUME PrefixIsRange(SeqsOf({0, 1, 254, 255}, 0, 3), SeqsOf({0, 1, 254, 255}, 0, 3))
 ASSUME OrderIsTotal(SeqsOf({0, 1, 255}, 0, 2) \cup {<<0, 0, 1>>, <<255, 255, 255>>, Inf})
 
------------------------------------------------------------------------------
-\* Behaviour generation (-simulate): one random instance per action kind, so that
-\* iterator walks are not drowned by the many ways to open an iterator.
-RE(S) == RandomElement(S)
-GenBatch == LET n == RE(1..MaxBatch) IN [i \in 1..n |-> RE(BatchOps)]
-GenNext ==
-  \/ Set(RE(Keys), RE(Vals))
-  \/ Set(RE(Keys), RE(Vals))
-  \/ Delete(RE(Keys))
-  \/ Batch(GenBatch)
-  \/ Get(RE(Keys))
-  \/ ItOpen(RE(Bounds), RE(Bounds \ {<<>>}), RE(Modes), RE(BOOLEAN))
-  \/ ItOpen(RE(Bounds \ {<<>>}), RE(Bounds \ {<<>>}), RE(Modes), RE(BOOLEAN))
-  \/ Rewind
-  \/ Seek(RE(Bounds \ {<<>>}))
-  \/ (it.open /\ RangeKeys(it) # {} /\ Seek(RE(RangeKeys(it))))
-  \/ ItNext
-  \/ (it.open /\ it.pos = AtEnd /\ ItClose)
-GenSpec == Init /\ [][GenNext]_vars
 =============================================================================
